@@ -40,7 +40,10 @@ literal('Environment.add_datapoint', '[datapoint]', 'list[any]')
 invariant('Environment', 'events_wellformed',
           "all(e is not None and alive(e) and typed(e, 'Event') for e in self._events) and "
           "all(e is not None and alive(e) and typed(e, 'Event') for e in self._paused_events) and "
+          "self._events is not None and self._paused_events is not None and "
           "alive(self._events) and alive(self._paused_events) and self._events is not self._paused_events")
+invariant('Environment', 'actions_callable',
+          'all(e.action is not None for e in self._events) and all(e.action is not None for e in self._paused_events)')
 invariant('Environment', 'sorted',
           'all(not lt(self._events[j], self._events[i]) '
           'for i in range(len(self._events)) for j in range(i + 1, len(self._events)))')
@@ -66,8 +69,8 @@ specfn('new_event', ['e', 'time', 'asset_id', 'action', 'event_type'],
 
 contract('Environment.schedule_event', props=['C01'],
          args={'time': 'real', 'asset_id': 'int', 'action': 'clo', 'event_type': 'real', 'message': 'str'},
-         requires={'callable': 'action is not None'},
-         raises={'ValueError': ('time < self._now', {'rejected_changes_nothing': '@frame:'})},
+         raises={'ValueError': ('time < self._now', {'rejected_changes_nothing': '@frame:'}),
+                 'TypeError': ('time >= self._now and action is None', {'uncallable_changes_nothing': '@frame:'})},
          ensures={
              'inserts_one_fresh_event':
                  'is_insert(seq(self._events), old(seq(self._events)), witness("insert_index")) '
@@ -119,7 +122,9 @@ rely('Environment',
                 '    or fresh(e) for e in self._paused_events)',
                 no_new_terminators=
                 'all(implies(e.action == method(self, "_terminate"), any(e is x for x in old(seq(self._events)))) '
-                '    for e in self._events)'),
+                '    for e in self._events) and '
+                'all(implies(p.action == method(self, "_terminate"), any(p is x for x in old(seq(self._paused_events)))) '
+                '    for p in self._paused_events)'),
      note='A4: actions use only the public API of the environment; no nested run/step; asset id -1 is never '
           'paused or cancelled; Environment._terminate is private')
 dispatch('Environment', '_terminate')
@@ -130,8 +135,7 @@ contract('Environment.is_simulation_in_progress', props=['C01'], args={}, result
          ensures={'reports_flag': 'result == (not self._terminated)'}, modifies=[])
 
 contract('Environment.step', props=['C01', 'C15'], args={},
-         requires={'queue_not_empty': 'len(self._events) > 0',
-                   'actions_callable': 'all(e.action is not None for e in self._events)'},
+         requires={'queue_not_empty': 'len(self._events) > 0'},
          may_raise=['Exception'],
          ensures={
              'takes_minimum': 'old(all(not lt(e, self._events[0]) for e in self._events))',
@@ -232,10 +236,11 @@ contract('Environment.pause_matching_events', props=['C07'], args={'asset_id': '
                  '      comp_pos("events_to_pause", j - old(len(self._paused_events))) < old(len(self._events)) and '
                  '      self._paused_events[j] is old(seq(self._events))[comp_pos("events_to_pause", j - old(len(self._paused_events)))] '
                  '      for j in range(old(len(self._paused_events)), len(self._paused_events))))',
-             'others_untouched': 'all(implies(e.asset_id != asset_id, same_event_fields(e)) for e in refs("Event"))',
+             'others_untouched':
+                 'all(implies(e.asset_id != asset_id, same_event_fields(e)) for e in old(seq(self._events)))',
              'already_paused_untouched': 'all(same_event_fields(p) for p in old(seq(self._paused_events)))',
              'only_stamp_changes': 'all(e.time == old(e.time) and e.cancelled == old(e.cancelled) and '
-                                   'e.executed == old(e.executed) for e in refs("Event"))',
+                                   'e.executed == old(e.executed) for e in old(seq(self._events)))',
              'clock_untouched': 'self._now == old(self._now)',
          },
          modifies=['self._events[]', 'self._paused_events[]', '*.paused_at'])
@@ -256,9 +261,130 @@ loop('Environment.pause_matching_events', 1, 'for event in events_to_pause',
           '    for x in range(old(len(self._paused_events)), len(self._paused_events)))',
       'stamped': 'all(events_to_pause[j].paused_at == self._now for j in range(k))',
       'stamps_only_listed':
-          'all(e.paused_at == old(e.paused_at) or any(e is events_to_pause[j] for j in range(k)) for e in refs("Event"))',
-      'others_untouched': 'all(implies(e.asset_id != asset_id, same_event_fields(e)) for e in refs("Event"))',
+          'all(e.paused_at == old(e.paused_at) or any(e is events_to_pause[j] for j in range(k)) '
+          '    for e in old(seq(self._events))) and '
+          'all(same_event_fields(p) for p in old(seq(self._paused_events)))',
+      'others_untouched': 'all(implies(e.asset_id != asset_id, same_event_fields(e)) for e in old(seq(self._events)))',
       'only_stamp_changes': 'all(e.time == old(e.time) and e.cancelled == old(e.cancelled) and '
-                            'e.executed == old(e.executed) for e in refs("Event"))',
+                            'e.executed == old(e.executed) for e in old(seq(self._events)))',
       'k_bound': 'k <= len(events_to_pause)'},
      modifies=['self._events[]', 'self._paused_events[]', '*.paused_at'], index='k')
+
+# unpause: g_m/g_inv track the remaining paused events (as in pause); g_e[a] is the position of the
+# a-th previously queued event in the queue, g_t[j] the position at which the j-th resumed event sits.
+ghost_after('Environment.unpause_matching_events', '<entry>', g_m='imap(lambda i: i)', g_inv='imap(lambda a: a)',
+            g_e='imap(lambda a: a)', g_t='imap(lambda j: -1)')
+ghost_after('Environment.unpause_matching_events', 'self._paused_events.remove(event)',
+            g_m='imap(lambda i: ite(i < witness("remove_index"), g_m[i], g_m[i + 1]))',
+            g_inv='imap(lambda a: ite(g_inv[a] > witness("remove_index"), g_inv[a] - 1, g_inv[a]))')
+ghost_after('Environment.unpause_matching_events', 'bisect.insort(self._events, event)',
+            g_e='imap(lambda a: ite(g_e[a] >= witness("insert_index"), g_e[a] + 1, g_e[a]))',
+            g_t='imap(lambda j: ite(j == k, witness("insert_index"), '
+                '                    ite(g_t[j] >= witness("insert_index"), g_t[j] + 1, g_t[j])))')
+
+specfn('resumed_fields', ['e'],
+       'e.time == old(e.time) + (self._now - old(e.paused_at)) and e.cancelled == old(e.cancelled) and '
+       'e.executed == old(e.executed) and e.paused_at == old(e.paused_at)')
+
+contract('Environment.unpause_matching_events', props=['C07'], args={'asset_id': 'int?'},
+         ensures={
+             'none_is_noop':
+                 'implies(isnone(asset_id), all(same_event_fields(e) for e in old(seq(self._events))) and '
+                 '        all(same_event_fields(e) for e in old(seq(self._paused_events))) and '
+                 '        seq(self._events) == old(seq(self._events)) and '
+                 '        seq(self._paused_events) == old(seq(self._paused_events)))',
+             'releases_all_matching':
+                 'implies(not isnone(asset_id), all(p.asset_id != asset_id for p in self._paused_events))',
+             'others_stay_paused_in_order':
+                 'implies(not isnone(asset_id), '
+                 '  sublist_by(seq(self._paused_events), old(seq(self._paused_events)), g_m, g_inv) and '
+                 '  all(implies(old(self._paused_events[a]).asset_id != asset_id, '
+                 '              0 <= g_inv[a] and g_inv[a] < len(self._paused_events) and '
+                 '              self._paused_events[g_inv[a]] is old(self._paused_events[a]) and '
+                 '              same_event_fields(old(self._paused_events[a]))) '
+                 '      for a in range(old(len(self._paused_events)))))',
+             'resumed_with_remaining_delay':
+                 'implies(not isnone(asset_id), '
+                 '  all(implies(old(self._paused_events[a]).asset_id == asset_id, '
+                 '              0 <= g_t[comp_inv("events_to_unpause", a)] and '
+                 '              g_t[comp_inv("events_to_unpause", a)] < len(self._events) and '
+                 '              self._events[g_t[comp_inv("events_to_unpause", a)]] is old(self._paused_events[a]) and '
+                 '              resumed_fields(old(self._paused_events[a]))) '
+                 '      for a in range(old(len(self._paused_events)))))',
+             'queued_stay_queued_in_order':
+                 'all(0 <= g_e[a] and g_e[a] < len(self._events) and self._events[g_e[a]] is old(self._events[a]) and '
+                 '    same_event_fields(old(self._events[a])) for a in range(old(len(self._events)))) and '
+                 'all(g_e[a] < g_e[b] for a in range(old(len(self._events))) for b in range(a + 1, old(len(self._events))))',
+             'clock_untouched': 'self._now == old(self._now)',
+         },
+         modifies=['self._events[]', 'self._paused_events[]', '*.time'])
+loop('Environment.unpause_matching_events', 1, 'for event in events_to_unpause',
+     {'list_fixed': 'alive(events_to_unpause) and events_to_unpause is not self._events and '
+                    'events_to_unpause is not self._paused_events and k <= len(events_to_unpause)',
+      'sub': 'sublist_by(seq(self._paused_events), old(seq(self._paused_events)), g_m, g_inv)',
+      'kept': 'all(implies(old(self._paused_events[a]).asset_id != asset_id or comp_inv("events_to_unpause", a) >= k, '
+              '            0 <= g_inv[a] and g_inv[a] < len(self._paused_events) and g_m[g_inv[a]] == a and '
+              '            self._paused_events[g_inv[a]] is old(self._paused_events[a]) and '
+              '            same_event_fields(old(self._paused_events[a]))) '
+              '    for a in range(old(len(self._paused_events))))',
+      'pending_still_paused':
+          'all(implies(self._paused_events[i].asset_id == asset_id, comp_inv("events_to_unpause", g_m[i]) >= k) '
+          '    for i in range(len(self._paused_events)))',
+      'queue_grows': 'len(self._events) == old(len(self._events)) + k',
+      'queued_kept':
+          'all(0 <= g_e[a] and g_e[a] < len(self._events) and self._events[g_e[a]] is old(self._events[a]) and '
+          '    same_event_fields(old(self._events[a])) for a in range(old(len(self._events)))) and '
+          'all(g_e[a] < g_e[b] for a in range(old(len(self._events))) for b in range(a + 1, old(len(self._events))))',
+      'resumed':
+          'all(0 <= g_t[j] and g_t[j] < len(self._events) and self._events[g_t[j]] is events_to_unpause[j] and '
+          '    resumed_fields(events_to_unpause[j]) for j in range(k))',
+      'queue_members':
+          'all(any(self._events[i] is x for x in old(seq(self._events))) or '
+          '    any(self._events[i] is events_to_unpause[j] for j in range(k)) for i in range(len(self._events)))',
+      'queue_sorted': ENV_INVS['sorted'],
+      'queue_no_duplicates': ENV_INVS['no_duplicates'],
+      'queue_nothing_in_past': ENV_INVS['nothing_in_past'],
+      'queue_wellformed': ENV_INVS['events_wellformed'],
+      'clock_untouched': 'self._now == old(self._now)'},
+     modifies=['self._events[]', 'self._paused_events[]', '*.time'], index='k')
+
+# --------------------------------------------------------------------------- Environment.run
+contract('Environment._export_trace', props=[], args={}, modular=True, verify=False, modifies=[],
+         note='file I/O (json.dump of the in-memory trace): trusted, changes nothing in the model state')
+
+# tau: the terminate event created by this call; T: the instant at which the run has to end
+TAU = 'at_loop_entry(self._events[witness("insert_index")])'
+TEND = '(at_loop_entry(self._now) + simulation_duration)'
+RUN_INVS = {
+    'tau_shape': f'typed({TAU}, "Event") and {TAU}.time == {TEND} and {TAU}.asset_id == -1 and '
+                 f'{TAU}.event_type == 1 and {TAU}.action == method(self, "_terminate")',
+    'clock_before_end': f'self._now <= {TEND}',
+    'tau_pending_until_terminated':
+        f'implies(not self._terminated, any(e is {TAU} for e in self._events) and not {TAU}.cancelled and '
+        f'not {TAU}.executed)',
+    'terminated_at_end':
+        f'implies(self._terminated, self._now == {TEND} and '
+        f'all(e.time > {TEND} or (e.time == {TEND} and e.event_type <= 1) for e in self._events))',
+    'no_other_terminator':
+        f'all(e is {TAU} or e.action != method(self, "_terminate") for e in self._events) and '
+        f'all(e is not {TAU} and e.action != method(self, "_terminate") for e in self._paused_events)',
+}
+
+contract('Environment.run', props=['C01', 'C15'], args={'simulation_duration': 'real', 'trace': 'bool'},
+         requires={
+             'no_stale_terminator':
+                 'all(e.action != method(self, "_terminate") for e in self._events) and '
+                 'all(e.action != method(self, "_terminate") for e in self._paused_events)',
+         },
+         raises={'ValueError': ('simulation_duration < 0', {})},
+         may_raise=['Exception'],
+         ensures={
+             'ends_exactly_at_t0_plus_d': 'self._now == old(self._now) + simulation_duration',
+             'terminated': 'self._terminated',
+             'everything_due_was_dispatched':
+                 'all(e.time > self._now or (e.time == self._now and e.event_type <= 1) for e in self._events)',
+         })
+loop('Environment.run', 1, 'while self._events and (not self._terminated)',
+     dict(ENV_INVS,
+          trace_flag='self._trace == trace', **RUN_INVS),
+     modifies=None)
